@@ -274,6 +274,8 @@ def load_known():
 
 # ---------------------------------------------------------------- evidence
 def write_evidence(pid, ev):
+    if REPO != '/repo':      # development runs against a scratch worktree are not evidence
+        return
     os.makedirs(os.path.join(VERIF, 'evidence'), exist_ok=True)
     with open(os.path.join(VERIF, 'evidence', f'{pid}.json'), 'w') as f:
         json.dump(ev, f, indent=1, default=str)
